@@ -3,6 +3,7 @@ package checks
 import (
 	"errors"
 	"os"
+	"runtime"
 	"path/filepath"
 	"strconv"
 	"strings"
@@ -165,6 +166,8 @@ func c06Target(j *mon.Jail, st int) (target, prefix string, allowed []string) {
 	return j.Target, j.Rel, nil
 }
 
+var c06Quiet = mon.NewLeakMonitor()
+
 func c06Success(c *Ctx, cs *Case, f, merged model.Forest, doc, fkey string, ei int, exts []string, st int, rt fsRoute, nontrivial bool) {
 	j, err := mon.NewJail(c.TmpDir, true)
 	if err != nil {
@@ -174,7 +177,9 @@ func c06Success(c *Ctx, cs *Case, f, merged model.Forest, doc, fkey string, ei i
 	defer j.Remove()
 	target, prefix, allowed := c06Target(j, st)
 	before := j.Snap()
-	opts := fsOpts(target, exts, ei != 0, false, false, false)
+	// a quarter of the calls run in massive mode (the result on a fresh target must be the same)
+	massive := (int(cs.Seed%4)+ei+st)%4 == 0 && !rt.Alias
+	opts := fsOpts(target, exts, ei != 0, false, massive, false)
 	stray, strayName := strayOptions("mkdir", int(cs.Seed%7)+ei+st)
 	opts = append(opts, stray...)
 	var outs []Outcome
@@ -186,6 +191,14 @@ func c06Success(c *Ctx, cs *Case, f, merged model.Forest, doc, fkey string, ei i
 		} else {
 			outs = append(outs, mkdirCall(rt, doc, nil, opts))
 		}
+	}
+	base := runtime.NumGoroutine()
+	if massive {
+		cs.Entry = rt.Name + "[massive]"
+		cs.SetDoc(doc)
+		c.Rejournal(cs)
+		cs.Doc, cs.DocText = nil, ""
+		defer c06Quiet.Quiesce(base)
 	}
 	if st == tsDefaultCwd || st == tsExplicitEmpty {
 		if err := withCwd(j.Target, call); err != nil {
@@ -200,8 +213,11 @@ func c06Success(c *Ctx, cs *Case, f, merged model.Forest, doc, fkey string, ei i
 	} else {
 		call()
 	}
+	if massive {
+		c06Quiet.Quiesce(base)
+	}
 	after := j.Snap()
-	cs.Entry = rt.Name
+	cs.Entry = rt.Name + map[bool]string{true: "[massive]", false: ""}[massive]
 	cs.Opt = map[string]string{"ext": strconv.Itoa(ei), "state": strconv.Itoa(st), "stray_options": strayName}
 	defer func() { cs.Entry, cs.Opt = "", nil }()
 	c.Eval(gen.HashString(fkey+"\x00"+rt.Name+strconv.Itoa(ei*10+st)), nontrivial)
@@ -282,6 +298,37 @@ func c06Existing(c *Ctx, cs *Case, f, merged model.Forest, doc, fkey string, mas
 		before := j.Snap()
 		o := mkdirCall(rt, doc, nil, opts)
 		after := j.Snap()
+		if !viaCwd {
+			// the same pre-state in massive mode: the pre-existing root must still be refused
+			// (whether other roots were created before the refusal is known finding KF-C10-1 of C10)
+			jm, errm := mon.NewJail(c.TmpDir, true)
+			if errm == nil {
+				for i, root := range merged {
+					if mask&(1<<i) != 0 {
+						if asFile {
+							os.WriteFile(filepath.Join(jm.Target, root.Name), []byte("old"), 0o644)
+						} else {
+							os.MkdirAll(filepath.Join(jm.Target, root.Name, "old-sub"), 0o755)
+						}
+					}
+				}
+				cs.Entry = rt.Name + "[massive]"
+				cs.SetDoc(doc)
+				c.Rejournal(cs)
+				cs.Doc, cs.DocText = nil, ""
+				b0 := runtime.NumGoroutine()
+				mo := mkdirCall(rt, doc, nil, fsOpts(jm.Target, nil, false, false, true, false))
+				c06Quiet.Quiesce(b0)
+				c.Eval(gen.HashString(fkey+"\x00existM"+rt.Name+strconv.Itoa(mask)+strconv.FormatBool(asFile)), true)
+				if mo.Panic != nil {
+					c.Violation(cs, "panic", PanicSig(mo.Panic, mo.Stack), map[string]any{"forest": fkey, "doc": doc})
+				} else if !errors.Is(mo.Err, gtree.ErrExistPath) {
+					c.Violation(cs, "exist.wrong-error", "massive", map[string]any{"forest": fkey, "doc": doc, "mask": mask, "as_file": asFile, "err": errStr(mo.Err)})
+				}
+				jm.Remove()
+				cs.Entry = rt.Name
+			}
+		}
 		c.Eval(gen.HashString(fkey+"\x00exist"+rt.Name+strconv.Itoa(mask)+strconv.FormatBool(asFile)), true)
 		c.Count("preexisting_cases", 1)
 		det := map[string]any{"forest": fkey, "doc": doc, "mask": mask, "as_file": asFile, "err": errStr(o.Err), "diff": mon.Diff(before, after)}
